@@ -49,10 +49,11 @@ var sizeLabels = map[string]string{
 	"c60":   `a label of sixty characters that goes on and on for a while.`,
 	"lines": `"first line\nthe second line is longer\nthird"`,
 	"tall":  `"1\n2\n3\n4\n5\n6\n7\n8"`,
+	"block": `"a block of text, line one\nline two of the same block\nline three, about as long\nline four is here as well\nline five keeps on going\nline six, nearly there now\nline seven of nine lines\nline eight, one more to go\nline nine ends the block"`,
 	"cjk":   `図形のラベル`,
 	"emoji": `🙂 ok 🚀`,
 }
-var sizeLabelOrder = []string{"x", "c12", "c60", "lines", "tall", "cjk", "emoji"}
+var sizeLabelOrder = []string{"x", "c12", "c60", "lines", "tall", "block", "cjk", "emoji"}
 
 // every leaf shape keyword of the language (sequence_diagram and hierarchy are diagram types, not leaf shapes)
 var dslShapes = []string{
@@ -67,10 +68,25 @@ const iconURL = "https://icons.terrastruct.com/essentials/004-picture.svg"
 
 func objName(sh string) string { return "s_" + strings.ReplaceAll(sh, "-", "_") }
 
+// has tells whether the program of this spec contains the shape: the compiler rejects unequal explicit
+// width/height on square and circle, so those two are left out of such programs.
+func (s sizeSpec) has(sh string) bool {
+	if (sh == d2target.ShapeSquare || sh == d2target.ShapeCircle) && s.w > 0 && s.h > 0 && s.w != s.h {
+		return false
+	}
+	return true
+}
+
 func (s sizeSpec) source() string {
 	var b strings.Builder
 	for _, sh := range dslShapes {
+		if !s.has(sh) {
+			continue
+		}
 		lbl := sizeLabels[s.label]
+		if (sh == d2target.ShapeSQLTable || sh == d2target.ShapeClass) && strings.Contains(lbl, `\n`) {
+			lbl = sizeLabels["c12"] // the compiler rejects newlines in table/class headers
+		}
 		var attrs []string
 		body := ""
 		switch sh {
@@ -152,6 +168,9 @@ func c21Oracle(in string) eng.Res {
 		return eng.Bad("harness:bad-spec", err.Error())
 	}
 	dsl := in[i+1:]
+	if !s.has(dsl) {
+		return eng.OK("not-in-program", false)
+	}
 	p := layoutSized(s)
 	if p.err != nil {
 		return eng.Bad("compile-or-layout-error:"+u.StripDigits(p.err.Error()), p.err.Error()+"\n"+p.src)
@@ -242,7 +261,7 @@ func init() {
 	eng.Register(&eng.Check{
 		ID: "C21", Level: "exploration", HangBound: 120 * time.Second,
 		QuickBudget: 110 * time.Second, ThoroughBudget: 24 * time.Minute,
-		Rule: "every attribute combination (label in {1 char, 12 chars, 60 chars, 3 lines, 8 lines, CJK, emoji} x font-size x bold/italic x icon in {none, inside, outside-top-left} x (width,height) in D^2, D per phase) is rendered to a D2 program holding one root-level leaf of each of the 23 leaf shape keywords with those attributes, laid out through d2lib.Compile with dagre; each (combination, shape) pair is one evaluation on the exported shape; non-trivial = both dimensions explicit, or automatic size with an inside label",
+		Rule: "every attribute combination (label in {1 char, 12 chars, 60 chars, 3 lines, 8 short lines, 9-line block, CJK, emoji (thorough)} x font-size x bold/italic x icon in {none, inside, outside-top-left} x (width,height) in D^2, D per phase) is rendered to a D2 program holding one root-level leaf of each of the 23 leaf shape keywords with those attributes, laid out through d2lib.Compile with dagre; each (combination, shape) pair is one evaluation on the exported shape; non-trivial = both dimensions explicit, or automatic size with an inside label",
 		Assumptions: []string{
 			"leaf shapes at the root of a dagre-laid-out board only (no grid, no sequence diagram, no containers, no near)",
 			"when only one of width/height is given the statement is silent: such cases are laid out but only checked for errors and positive size",
@@ -263,9 +282,11 @@ func init() {
 										if !w.Mine() { // shard by program: its 23 evaluations share one layout
 											continue
 										}
-										spec := sizeSpec{l, f, st, ic, d[0], d[1]}.String()
+										sp := sizeSpec{l, f, st, ic, d[0], d[1]}
 										for _, sh := range dslShapes {
-											w.EvalMine("size", spec+"#"+sh)
+											if sp.has(sh) {
+												w.EvalMine("size", sp.String()+"#"+sh)
+											}
 										}
 									}
 								}
@@ -284,11 +305,11 @@ func init() {
 				return r
 			}
 			if !w.Thorough() {
-				run("labels(6) x font{-,8,40} x {plain,bolditalic} x icons(3) x dims{(-,-),(1,1),(37,200),(200,37),(1000,1000),(37,-),(-,200)}",
-					[]string{"x", "c12", "c60", "lines", "tall", "cjk"}, []string{"-", "8", "40"}, []string{"plain", "bolditalic"}, []string{"none", "in", "out"},
+				run("labels(7) x font{-,8,40} x {plain,bolditalic} x icons(3) x dims{(-,-),(1,1),(37,200),(200,37),(1000,1000),(37,-),(-,200)}",
+					[]string{"x", "c12", "c60", "lines", "tall", "block", "cjk"}, []string{"-", "8", "40"}, []string{"plain", "bolditalic"}, []string{"none", "in", "out"},
 					[][2]int{{0, 0}, {1, 1}, {37, 200}, {200, 37}, {1000, 1000}, {37, 0}, {0, 200}})
 			} else {
-				run("labels(7) x font{-,8,16,32,100} x styles(4) x icons(3) x dims{-,1,5,37,200,1000}^2",
+				run("labels(8) x font{-,8,16,32,100} x styles(4) x icons(3) x dims{-,1,5,37,200,1000}^2",
 					sizeLabelOrder, []string{"-", "8", "16", "32", "100"}, []string{"plain", "bold", "italic", "bolditalic"}, []string{"none", "in", "out"},
 					sq([]int{0, 1, 5, 37, 200, 1000}))
 			}
